@@ -81,7 +81,8 @@ class C19(Prop):
     bits = {4: "exit status is not 0 exactly when nothing (or only warnings with --allow-warnings) was reported",
             8: "printed totals differ from the number of diagnostics printed per severity (+1 per missing file)"}
     rule = ("random argument lists (files, directories, missing paths; clean/warning/error/parse-error/panicking "
-            "contents; names matching / not matching `exclude`) x 6 configurations x --allow-warnings x --no-exclude x "
+            "contents; names matching / not matching `exclude`; standard input `-` fed with a pool file's bytes, two of them not valid UTF-8; "
+            "in luacheck mode unknown options that are prefixes of real ones) x 6 configurations x --allow-warnings x --no-exclude x "
             "--no-summary x 5 output modes x num-threads; per-file outcomes come from Checker::test_on through the "
             "harness, exit status/summary/printed diagnostics from the real binary; non-trivial = at least one "
             "problem file or exclusion involved; distinct = distinct (args, options, config)")
